@@ -580,6 +580,7 @@ class Interp:
         out['bar'] = c.bar()
         out['beat_in_bar'] = c.beat_in_bar()
         out['ttnb'] = c.time_to_next_beat(q if q > 0 else 1)
+        out['g0'] = c.next_time_on_grid(q if q > 0 else 1, 0)
         x = out['beats']
         out['rt_secs'] = c.secs2beats(c.beats2secs(x))
         out['rt_bars'] = c.bars2beats(c.beats2bars(x))
